@@ -83,3 +83,24 @@ func HDeep() {
 	x.checkQueries(true)
 	vReach("end")
 }
+
+func init() { vRegister("HDeepEvents", HDeepEvents) }
+
+// HDeepEvents: the event oracle of C11 after every step of a k-step history from an empty world.
+func HDeepEvents() {
+	x := hNew(vChoice("profile", 2), 6, 1+vChoice("capinc", 2), 1)
+	rec := &hRec{x: x, subs: 63}
+	x.w.SetListener(rec)
+	x.rec = rec
+	steps := 3 + vTier()
+	for s := 0; s < steps; s++ {
+		rec.n = 0
+		before := x.snap()
+		op := vChoice("op", 9)
+		x.deepStep(op)
+		x.checkEvents(rec, &before, op == 5)
+		x.inv()
+	}
+	x.check()
+	vReach("end")
+}
